@@ -42,11 +42,15 @@ def fill(f, x, y):
     return FILLERS[f].format(X=x, Y=y)
 
 
+HEADING_TAILS = ["", " ", "\t", " <!-- c -->"]
+
+
 def render(doc, f):
     out = []
     for i, (k, v) in enumerate(doc):
         if k == "h":
-            out.append("=" * v + "H%d" % i + "=" * v)
+            # v = level + 10 * (index of what follows the closing "=" run on the line: nothing, a blank, a tab, a comment)
+            out.append("=" * (v % 10) + "H%d" % i + "=" * (v % 10) + HEADING_TAILS[v // 10])
         elif k == "l":
             out.append(v + fill(f, "I%d" % i, "U%d" % i))
         elif k == "hr":
@@ -65,6 +69,7 @@ def ref(doc, f):
     hrs = []
     for i, (k, v) in enumerate(doc):
         if k == "h":
+            v = v % 10
             lists = []
             while secs[-1][1] >= v:
                 secs.pop()
@@ -284,13 +289,17 @@ def main(run):
     for alpha, L in ((H, 5 if q else 6), (M, 4 if q else 6)):
         for a in alpha:
             extra.append((alpha, a, L))
+    # heading lines with something after the closing "=" run (a blank, a tab, a comment), mixed with plain headings, items, text
+    HT = [("h", lvl + 10 * t) for lvl in (1, 2, 3) for t in (1, 2, 3)] + [("h", 2), ("h", 3), ("l", "*"), ("l", "**"), ("t", None)]
+    for a in HT:
+        extra.append((HT, a, 3 if q else 4, 1))
     for cid, acc, hung in run_chunks(work_extra, extra, nproc=run.nproc, case_timeout=30):
         run.acc.merge(acc)
     cov = {
         "distinct_nontrivial": len(run.acc.sets.get("skeletons", ())),
         "rule": "every document of <= %d lines, each line one of %d kinds (6 heading levels, %d list markers over {*,#} of depth <= 4, "
                 "----, filler line) x every one of %d balanced fillers (used for filler lines and item texts); plus heading-only "
-                "sequences to length %d and marker-only sequences (depth <= 2) to length %d. Non-trivial/distinct = distinct "
+                "sequences to length %d and marker-only sequences (depth <= 2) to length %d; documents of <= 3 (thorough 4) lines over headings followed on their line by a blank / tab / comment, plain headings, items and text. Non-trivial/distinct = distinct "
                 "extracted skeletons with >= 2 tagged nodes." % (maxlen, len(LINES), len(MARKS), len(FILLERS), 5 if q else 6, 4 if q else 6),
         "exhaustive": True,
     }
@@ -302,11 +311,12 @@ def main(run):
 
 
 def work_extra(payload, skip, report):
-    alpha, first, L = payload
+    alpha, first, L = payload[:3]
+    nmin = payload[3] if len(payload) > 3 else 4
     acc = Acc(PROP)
     ctx = new_ctx()
     i = 0
-    for n in range(4, L + 1):
+    for n in range(nmin, L + 1):
         for rest in itertools.product(alpha, repeat=n - 1):
             doc = [first] + list(rest)
             report(i)
